@@ -135,9 +135,15 @@ package main
 
 // ---- C10: --set NAME=VALUE defines NAME as everything before the first '=' and VALUE as everything after it
 //@ func makeApp$2
-//@   waive safe.nil "the hook's use of cfg after a swallowed 'default config not found' error depends on what Loader.Load returns with that error (its dst); Load is only thinly specified, and no-crash of the CLI glue is not part of C10"
-//@   requires c != nil && loaderOK(cl) && cl.dst != nil && cl.dst.Variables != nil
+//@   requires c != nil && c.App != nil && loaderOK(cl) && cl.dst != nil && cl.dst.Variables != nil
 //@   modifies *
+// C15: the hook carries on after a "no configuration file" error only with the configuration Load handed back
+// (its dst): never with nil
+//@   callsite Load
+//@     requires #C15.loads-the-file-named-by-the-flag arg0 == ctxString(c, "config")
+// (urfave/cli: the config flag has no default value, so it is empty unless it was set by flag or TASKCTL_CONFIG_FILE)
+//@     assume !ctxIsSet(c, "config") ==> len(ctxString(c, "config")) == 0
+//@     assume c.App != nil // the loader does not touch the CLI context
 //@   loop 1 "range c.StringSlice(\"set\")"
 //@     invariant c#1 != nil
 //@   callsite Set
